@@ -2668,8 +2668,9 @@ fn core_word_assert_eq(xs: &mut State) -> Xresult {
 }
 
 fn core_word_exit(xs: &mut State) -> Xresult {
-    xs.about_to_stop = true;
+    // an `exit` that has no exit code to take is an error like any other: it stops nothing
     let code = xs.pop_data()?.to_isize()?;
+    xs.about_to_stop = true;
     Err(Xerr::Exit(code))
 }
 
